@@ -12,6 +12,7 @@ import (
 	"strings"
 
 	"github.com/hedzr/is"
+	"github.com/hedzr/is/states"
 	"github.com/hedzr/logg/slog"
 )
 
@@ -183,6 +184,8 @@ func c01ops() []c01op {
 		{"slog.Default().SetLevel(Debug)", func(a *slog.Entry) { slog.Default().SetLevel(slog.DebugLevel) }},
 		{"slog.Default().SetLevel(Error)", func(a *slog.Entry) { slog.Default().SetLevel(slog.ErrorLevel) }},
 		{"slog.ResetLevel()", func(a *slog.Entry) { slog.ResetLevel() }},
+		// the application installs a state block of its own in the hedzr/is package (the process-wide debug and trace modes live there)
+		{"states.UpdateEnvWith(the application's own state block)", func(a *slog.Entry) { states.UpdateEnvWith(&c01userEnv{}) }},
 	}
 	for _, c := range c01customs {
 		c := c
@@ -229,6 +232,7 @@ func c01lifecycle(pre string, a slog.Logger, rec *recorder) slog.Logger {
 
 // c01build replays a history on a fresh world and returns logger A.
 func c01build(ops []c01op, hist []int) (a slog.Logger, rec *recorder) {
+	states.UpdateEnvWith(c01env0)
 	resetGlobals()
 	slog.AddFlags(slog.LnoInterrupt)
 	rec = &recorder{}
@@ -242,8 +246,40 @@ func c01build(ops []c01op, hist []int) (a slog.Logger, rec *recorder) {
 
 func c01stateKey() string {
 	d := slog.Default()
-	return slog.VerifDumpGlobals() + fmt.Sprintf("default.level=%d", int(d.Level()))
+	return slog.VerifDumpGlobals() + fmt.Sprintf("default.level=%d own-state-block=%v", int(d.Level()), states.Env() != c01env0)
 }
+
+// the state block of hedzr/is as the process started with it
+var c01env0 = states.Env()
+
+// c01userEnv is an application's own implementation of the state block.
+type c01userEnv struct {
+	debug, trace, nocolor, verbose, quiet bool
+	dl, tl, nc, vc, qc                    int
+}
+
+func (e *c01userEnv) InDebugging() bool        { return false }
+func (e *c01userEnv) GetDebugMode() bool       { return e.debug }
+func (e *c01userEnv) SetDebugMode(b bool)      { e.debug = b }
+func (e *c01userEnv) GetDebugLevel() int       { return e.dl }
+func (e *c01userEnv) SetDebugLevel(hits int)   { e.dl = hits }
+func (e *c01userEnv) GetTraceMode() bool       { return e.trace }
+func (e *c01userEnv) SetTraceMode(b bool)      { e.trace = b }
+func (e *c01userEnv) GetTraceLevel() int       { return e.tl }
+func (e *c01userEnv) SetTraceLevel(hits int)   { e.tl = hits }
+func (e *c01userEnv) IsNoColorMode() bool      { return e.nocolor }
+func (e *c01userEnv) SetNoColorMode(b bool)    { e.nocolor = b }
+func (e *c01userEnv) CountOfNoColor() int      { return e.nc }
+func (e *c01userEnv) SetNoColorCount(hits int) { e.nc = hits }
+func (e *c01userEnv) IsVerboseMode() bool      { return e.verbose }
+func (e *c01userEnv) IsVerboseModePure() bool  { return e.verbose }
+func (e *c01userEnv) SetVerboseMode(b bool)    { e.verbose = b }
+func (e *c01userEnv) CountOfVerbose() int      { return e.vc }
+func (e *c01userEnv) SetVerboseCount(hits int) { e.vc = hits }
+func (e *c01userEnv) IsQuietMode() bool        { return e.quiet }
+func (e *c01userEnv) SetQuietMode(b bool)      { e.quiet = b }
+func (e *c01userEnv) CountOfQuiet() int        { return e.qc }
+func (e *c01userEnv) SetQuietCount(hits int)   { e.qc = hits }
 
 func c01customMaps() (treat map[slog.Level]slog.Level, registered []slog.Level) {
 	treat = map[slog.Level]slog.Level{}
